@@ -87,6 +87,13 @@ fn viol(seed: u64, sc: &Scenario, class: String, detail: String) -> Violation {
     Violation { property: "C07".into(), check: "c07".into(), class, detail, seed, scenario: serde_json::to_value(sc).unwrap() }
 }
 
+/// `verdict_differs:<mode>` when one side failed and the other succeeded, `differs:<mode>` when both
+/// succeeded with different samples (or both failed with different errors).
+fn diff_class(mode: &str, d: &str) -> String {
+    let verdict = (d.contains("Err(") && d.contains("Ok(")) || d.contains("initialised:");
+    format!("{}:{mode}", if verdict { "verdict_differs" } else { "differs" })
+}
+
 fn load(bytes: &[u8], pool: JxlThreadPool) -> Result<JxlImage, String> {
     load_chunked(bytes, &ChunkSchedule::whole(bytes.len()), None, pool)
 }
@@ -169,14 +176,14 @@ pub fn execute(seed: u64, sc: &Scenario, stats: &mut Stats) -> Result<(), Violat
         }
         for (k, (a, b)) in reference.renders.iter().zip(&renders).enumerate() {
             if let Some(d) = same(a, b) {
-                return Err(viol(seed, sc, "differs:simulated_schedule".into(), format!("keyframe {k}, no pool vs simulated task schedule (seed {ps}): {d}")));
+                return Err(viol(seed, sc, diff_class("simulated_schedule", &d), format!("keyframe {k}, no pool vs simulated task schedule (seed {ps}): {d}")));
             }
         }
         // renders again after all background tasks completed: still the same
         for (k, a) in reference.renders.iter().enumerate() {
             let again = RenderObs::from_result(&img.render_frame(k));
             if let Some(d) = same(a, &again) {
-                return Err(viol(seed, sc, "differs:after_background_tasks".into(), format!("keyframe {k} rendered again after the deferred background tasks ran: {d}")));
+                return Err(viol(seed, sc, diff_class("after_background_tasks", &d), format!("keyframe {k} rendered again after the deferred background tasks ran: {d}")));
             }
         }
     }
@@ -189,7 +196,7 @@ pub fn execute(seed: u64, sc: &Scenario, stats: &mut Stats) -> Result<(), Violat
             for (k, a) in reference.renders.iter().enumerate() {
                 let again = RenderObs::from_result(&img.render_frame(k));
                 if let Some(d) = same(a, &again) {
-                    return Err(viol(seed, sc, "differs:repetition".into(), format!("keyframe {k}, repetition {rep} on one image: {d}")));
+                    return Err(viol(seed, sc, diff_class("repetition", &d), format!("keyframe {k}, repetition {rep} on one image: {d}")));
                 }
             }
         }
@@ -234,7 +241,7 @@ pub fn execute(seed: u64, sc: &Scenario, stats: &mut Stats) -> Result<(), Violat
                     for (i, r) in rs.iter().enumerate() {
                         let k = (i + t) % nk;
                         if let Some(d) = same(&reference.renders[k], r) {
-                            return Err(viol(seed, sc, "differs:concurrent_callers".into(), format!("keyframe {k}, caller {t} of {} on a {n}-thread pool: {d}", sc.concurrent_callers)));
+                            return Err(viol(seed, sc, diff_class("concurrent_callers", &d), format!("keyframe {k}, caller {t} of {} on a {n}-thread pool: {d}", sc.concurrent_callers)));
                         }
                     }
                 }
@@ -242,7 +249,7 @@ pub fn execute(seed: u64, sc: &Scenario, stats: &mut Stats) -> Result<(), Violat
             for (k, a) in reference.renders.iter().enumerate() {
                 let r = RenderObs::from_result(&img.render_frame(k));
                 if let Some(d) = same(a, &r) {
-                    return Err(viol(seed, sc, "differs:real_pool".into(), format!("keyframe {k}, no pool vs {n}-thread rayon pool (repetition {rep}): {d}")));
+                    return Err(viol(seed, sc, diff_class("real_pool", &d), format!("keyframe {k}, no pool vs {n}-thread rayon pool (repetition {rep}): {d}")));
                 }
             }
             stats.fault("real_rayon_pool");
